@@ -498,6 +498,29 @@ def inclusion(run, R="INC"):
                                             g_ok = True
                     okr = okr and g_ok
                 found = found or okr
+        # every component of the result went through the `..` test: the stack that `..` pops from starts empty and is only
+        # pushed to behind the `is not ..` edge
+        stack_ok = False
+        why_s = "collapse stack not found"
+        for bi, t in nav.calls():
+            if (t.get("callee") or "") == "std::cmp::PartialEq::eq" and any(T.promoted_str(prog, nav, x) == ".." for x in t["args"]) and t["target"] is not None:
+                sw = T.switch_after(nav, t["target"], t["dest"]["l"])
+                if sw is None:
+                    continue
+                reg = T.dominated_region(nav, sw[0], t["target"])
+                pops = [t3 for b3, t3 in T.region_calls(nav, reg) if (t3.get("callee") or "").endswith("::remove") or (t3.get("callee") or "").endswith("::pop")]
+                if not pops:
+                    continue
+                from rules_sym import _root_of_ref
+                stack = _root_of_ref(nav, pops[0]["args"][0])
+                defs = nav.full_defs(stack) if stack is not None else []
+                starts_empty = len(defs) == 1 and defs[0][0] == "call" and re.search(r"Vec::<.*>::new$", defs[0][2].get("callee") or "") is not None
+                pushes = [(b3, t3) for b3, t3 in nav.calls() if re.search(r"Vec::<.*>::(push|extend|append|insert|extend_from_slice)$", t3.get("callee") or "") and _root_of_ref(nav, t3["args"][0]) == stack]
+                guarded = all(nav.edge_dominates(t["target"], sw[1], b3) for b3, t3 in pushes)
+                stack_ok = starts_empty and bool(pushes) and guarded
+                why_s = "the stack `..` pops from %s" % ("does not start empty (it is pre-filled with components that were never tested for `..`)" if not starts_empty else "is pushed to outside the `is not ..` edge")
+        run.check(stack_ok, R, R + "|navigate|all-components-tested", nav.loc(), "every component of the result (from the including file's path as well as from the written path) went through the `..` test",
+                  "filename_navigate: %s: `..` components in the including file's own path survive into the result, so a root file given as `../x/main.asm` can name files outside the working directory" % why_s)
         run.check(found, R, R + "|navigate|dotdot-confined", nav.loc(), "`..` with nothing left to pop is reported and rejected", "filename_navigate no longer rejects `..` past the start of the path")
     # real file system only behind `!is_std_path`, and only inside the file server
     allowed = run.table("mpt")["fs_users"]
